@@ -5,11 +5,11 @@ from harness import core, gen, common
 
 ID = 'C19'
 LEAN_TARGETS = ['Props.C19']
-TIE_A = ['parser_step_eq', 'printer_str_eq']
+TIE_A = ['parser_step_eq', 'parser_lexicon_eq', 'parser_line_offset_eq', 'printer_str_eq']
 OBLIGATIONS = [
     'C19.parse_print_roundtrip', 'C19.term_order_irrelevant', 'C19.whitespace_irrelevant', 'C19.printed_within_half_unit',
     'C19.two_coefficients_in_a_row', 'C19.dangling_sign', 'C19.dangling_wedge', 'C19.unknown_blade', 'C19.error_position',
-    'C19.str_loop_is_printToks', 'C19.parse_str_loop_roundtrip',
+    'C19.str_loop_is_printToks', 'C19.parse_str_loop_roundtrip', 'C19.error_line_and_column',
 ]
 PENDING = ['repr/eval record model (layout reference | full layout repr, value list, dtype suffix) is checked on the implementation only',
            'characters <-> tokens (re.Scanner, float formatting) are compared with the real tokenizer, not proved']
